@@ -989,10 +989,19 @@ class Engine:
         if len(node.generators) != 1 or node.generators[0].is_async:
             raise Unsupported("nested dict comprehension")
         g = node.generators[0]
-        if not (isinstance(g.target, ast.Name) and isinstance(node.key, ast.Name) and node.key.id == g.target.id):
+        pair = isinstance(g.target, ast.Tuple) and len(g.target.elts) == 2 and all(isinstance(e, ast.Name) for e in g.target.elts)
+        key_name = g.target.elts[0].id if pair else (g.target.id if isinstance(g.target, ast.Name) else None)
+        if key_name is None or not (isinstance(node.key, ast.Name) and node.key.id == key_name):
             raise Unsupported("dict comprehension whose key is not the loop variable")
 
         def k(s, it):
+            items_map = getattr(it, "items_of", None)
+            if pair and items_map is None:
+                raise Unsupported("dict comprehension with a pair target over something else than d.items()")
+            if items_map is not None and not pair:
+                raise Unsupported("dict comprehension over d.items() without a (key, value) target")
+            if items_map is not None:
+                it = items_map
             if isinstance(it, Val) and isinstance(it.ty, SetT):
                 kty, member_of = it.ty.elem, (lambda q: z3.Select(it.term, q))
             elif isinstance(it, Val) and isinstance(it.ty, SeqT):
@@ -1006,7 +1015,8 @@ class Engine:
             kq = z3.Const(fresh_name("dck"), kty.sort())
             s2 = s.fork()
             s2.assume(member_of(kq))
-            res = bind(self.assign_target(g.target, Val(kq, kty), s2), lambda s3, _v: self.eval_many(list(g.ifs) + [node.value], s3))
+            item = TupleVal([Val(kq, kty), Val(it.ty.opt.val(z3.Select(it.term, kq)), it.ty.val)]) if pair else Val(kq, kty)
+            res = bind(self.assign_target(g.target, item, s2), lambda s3, _v: self.eval_many(list(g.ifs) + [node.value], s3))
             ok = [r for r in res if r[0] == OK]
             bad = [r for r in res if r[0] != OK]
             if not ok:
